@@ -53,6 +53,12 @@ CLAIMED = {
   "technique": "Lean 4 proof (refinement / simulation: scheduled execution is a prefix of the deterministic loop) + schedule enumeration against the implementation",
   "design_ref": "4 C04",
  },
+ "C17": {
+  "text": "Lean 4 model of prune_types (the seen/pending worklist over redirects and code edges, retain) on the builder model's graph, tied to /repo by exact correspondence: the model builds the abstract world with all dependency kinds, prunes it, and must equal the implementation's pruned graph entry by entry. Proved for every graph: a visited dependency keeps no type side while code side / dynamic flag / text / attribute are untouched, a visited JS module keeps no types dependency, the edges followed are exactly the resolved code targets (dynamic included), pruning only removes entries and keeps only what the worklist has seen, roots are seen. The equality with a code-only build is decided on every run on the implementation (prune_types(All) vs CodeOnly build: entry kinds, redirects, code edges as sets, valid()); in worlds without a known-defect trigger equality must hold exactly (~55% of the generated worlds), in worlds with exactly one trigger the difference is attributed to that finding (F6, F15-F18).",
+  "note": "prune_eq_codeOnly is not a Lean theorem: the statement is false of the code in general (findings F6/F14, F15, F16, F17, F18, each reproduced on the implementation and listed in known_findings.json); worlds with several triggers at once are counted but not attributed. Fast-check data removal is checked on the implementation side (no fast-check data exists in these worlds; covered with C12's packages).",
+  "technique": "Lean 4 executable model + proofs of per-entry pruning facts + exact correspondence + implementation-side differential oracle (prune vs code-only build)",
+  "design_ref": "4 C17",
+ },
 }
 NOT_APPLICABLE = {}
 ALL = [f"C{i:02d}" for i in range(1, 21)]
